@@ -914,7 +914,9 @@ func (w *World) rulesVocab(out *[]Obligation) {
 					}
 				}
 			}
-			if ga := gm.ByLabel[m.Label]; ga != nil {
+			if ga := gm.ByLabel[m.Label]; ga != nil && len(ga.Table) == 0 {
+				add(false, "R09.nonempty", "Get["+m.Label+"]", ga.Arm, "premise failed: what Get("+m.Label+") prints could not be modelled (reported by R07.decode / R07.names): undecided")
+			} else if ga != nil {
 				okNE := true
 				var why []string
 				vals := setOf(om.Values)
@@ -1121,6 +1123,11 @@ func (w *World) rulesEmit(p *Pkg, ov *OVocab, ord [][]string, out *[]Obligation)
 		m := sm.ByLabel[e.Label]
 		ga := gm.ByLabel[e.Label]
 		if om == nil || m == nil || ga == nil || len(m.List) == 0 {
+			continue
+		}
+		if len(ga.Table) == 0 {
+			// what Get prints for this metric is not known: no verdict may be read off an empty table
+			add(false, "R02.skip", fmt.Sprintf("Vector[%s]", e.Label), e.Call, "premise failed: what Get("+e.Label+") prints could not be modelled (reported by R07.decode / R07.names): undecided")
 			continue
 		}
 		inst := "Vector[" + e.Label + "]"
